@@ -35,6 +35,8 @@ pub const FILTERS: [(&str, char); 15] = [
 
 /// What the reference knows about a formula under an (optional) ordering file.
 pub struct Expect {
+    /// names listed by the ordering file (file order), empty without one
+    pub listed: Vec<String>,
     pub names: Vec<String>,
     /// free variables in variable order
     pub header: Vec<String>,
@@ -74,7 +76,9 @@ pub fn expect(text: &str, ordering_file: Option<&str>) -> Result<Expect, String>
         }
     }
     let table = project(&full, &idents, &header);
+    let listed: Vec<String> = ord.as_ref().map(|o| o.iter().map(|x| x.0.clone()).collect()).unwrap_or_default();
     Ok(Expect {
+        listed,
         names: idents,
         header,
         vars,
@@ -182,24 +186,62 @@ pub fn check_output(inv: &Invocation, stdout: &str, ex: &Expect) -> Result<(), S
     let p = cli::parse_stdout(stdout)?;
     let filter = inv.filter();
     let k = ex.header.len();
+    // The variable order is prescribed only for names listed in the ordering file (file order);
+    // where unlisted names go is the tool's choice. What is judged: -r lists every identifier once,
+    // listed names in file order; the header is the free variables in that same order.
+    let respects_listed = |seq: &[String]| -> bool {
+        let pos: Vec<usize> = seq.iter().filter_map(|n| ex.listed.iter().position(|l| l == n)).collect();
+        pos.windows(2).all(|w| w[0] < w[1])
+    };
     if inv.has("-r") {
-        if p.ordering != ex.vars {
+        let mut got = p.ordering.clone();
+        got.sort();
+        let mut want = ex.vars.clone();
+        want.sort();
+        if got != want {
             return Err(format!(
-                "-r exported {:?} but the variables in variable order are {:?}",
+                "-r exported {:?}, which is not every variable of the formula exactly once ({:?})",
                 p.ordering, ex.vars
             ));
+        }
+        if !respects_listed(&p.ordering) {
+            return Err(format!("-r exported {:?}, which does not follow the ordering file {:?}", p.ordering, ex.listed));
         }
     } else if !p.ordering.is_empty() {
         return Err(format!("unexpected lines before the table: {:?}", p.ordering));
     }
-    if inv.has("-t") {
-        let header = p.header.as_ref().ok_or("no table printed under -t")?;
-        if header != &ex.header {
-            return Err(format!(
-                "header {:?} is not the free variables in variable order {:?}",
-                header, ex.header
-            ));
+    // the function over the header's own column order
+    let mut table = ex.table.clone();
+    let mut header_used = ex.header.clone();
+    if let Some(header) = p.header.as_ref() {
+        let mut got = header.clone();
+        got.sort();
+        let mut want = ex.header.clone();
+        want.sort();
+        if got != want {
+            return Err(format!("header {:?} is not exactly the free variables {:?}", header, ex.header));
         }
+        if !respects_listed(header) {
+            return Err(format!("header {:?} does not follow the ordering file {:?}", header, ex.listed));
+        }
+        if inv.has("-r") {
+            let sub: Vec<&String> = p.ordering.iter().filter(|n| header.contains(n)).collect();
+            if sub != header.iter().collect::<Vec<_>>() {
+                return Err(format!("header {:?} is not in the variable order exported by -r {:?}", header, p.ordering));
+            }
+        }
+        table = project(&ex.table, &ex.header, header);
+        header_used = header.clone();
+    }
+    let ex = &Expect {
+        listed: ex.listed.clone(),
+        names: ex.names.clone(),
+        header: header_used,
+        vars: ex.vars.clone(),
+        table,
+    };
+    if inv.has("-t") {
+        let _header = p.header.as_ref().ok_or("no table printed under -t")?;
         if inv.has("-m") {
             // the printed function is a model: a cube inside f, non-empty iff f satisfiable
             let (g, cov) = printed_function(&p, k)?;
